@@ -12,6 +12,7 @@ open GoStd
 namespace Driver
 
 structure SideState where
+  routeCfg : List String := []      -- observer: arguments of the last `route cfg`
   rr : Side.RR.St := {}
   rrIndex : List Bytes := []
   rrObs : Spec.RRObs := {}
@@ -87,6 +88,7 @@ def execSide (s : SideState) (stream op : String) (a : List String) : SideState 
   | "res", "close", _ => (s, "ok")
   | "res", "disp", _ => (s, "recv=" ++ hexJoin (sortBytes s.rr.backends))
   | "res2", "disp", _ => (s, "recv=" ++ hexJoin (sortBytes s.rr.backends))
+  | "res2", "join", _ => (s, rrStateStr s)      -- another rotation subscribes: nothing changes for this one
   | "res2", "new", _ :: _ :: hps =>
     let pairs := hps.filterMap fun hp => cutLast 58 (unhex hp)
     ({ s with rr := {}, rrIndex := [], resPorts := pairs, resEntries := pairs.map fun p => (p.1, {}) }, "ok")
@@ -160,9 +162,12 @@ def specSide (s : SideState) (stream op : String) (a impl : List String) : SideS
     | some t =>
       let (o, errs) := s.rrObs.dispatch t
       ({ s with rrObs := o }, errs.map ("C05 " ++ ·))
-  | "route", "new", _ => ({ s with routeSeen := [] }, [])
+  | "route", "new", _ => ({ s with routeSeen := [], routeCfg := [] }, [])
   | "route", "add", _ => ({ s with routeSeen := [] }, [])
-  | "route", "cfg", _ => ({ s with routeSeen := [] }, [])
+  | "route", "cfg", args =>
+    -- the same configuration text again: what was answered before must be answered again (the table is rebuilt the
+    -- way the program builds it at every start)
+    if s.routeCfg == args then (s, []) else ({ s with routeSeen := [], routeCfg := args }, [])
   | "route", "find", [h] =>
     -- the answer is the same every time the same host is looked up (whatever was looked up in between)
     let (s, stab) : SideState × List String := match s.routeSeen.find? (fun e => e.1 == h) with
@@ -194,6 +199,7 @@ def specSide (s : SideState) (stream op : String) (a impl : List String) : SideS
   | "res", "disp", _ =>
     let expected := sortBytes ((s.resObs.flatMap fun e => e.2.1.map fun ip => Side.Res.hostPort ip s.resObsPort).eraseDups)
     (s, if impl == ["recv=" ++ hexJoin expected] then [] else ["C19 dispatches-do-not-reach-exactly-the-resolved-addresses"])
+  | "res2", "join", _ => (s, [])
   | "res2", "disp", _ =>
     let portOf (hn : Bytes) : Bytes := ((s.resObsPorts.find? (fun p => p.1 == hn)).map (·.2)).getD []
     let expected := sortBytes ((s.resObs.flatMap fun e => e.2.1.map fun ip => Side.Res.hostPort ip (portOf e.1)).eraseDups)
